@@ -114,6 +114,7 @@ def make_jobs(ctx):
     # UB-freedom obligations on the runtime macros (both trap-stub modes are covered: the stub ends the path) and on generated code
     jobs += rjobs(ctx, c01.r_ops(), ["wasm_int.h"], "R.int", variant="plain", ub_checks=True)
     jobs += rjobs(ctx, c02.r_ops(), ["wasm_int.h", "wasm_float.h"], "R.flt", variant="plain", ub_checks=True)
+    jobs += c02.conv_jobs(ctx, "R.flt")
     pmi, pmf = build_modules(ctx)
     jobs += pmi.jobs(ctx, ["wasm_int.h", "libm_markers.h"], "G.int", ub_checks=True)
     jobs += pmf.jobs(ctx, ["wasm_int.h", "wasm_float.h", "libm_markers.h"], "G.flt", ub_checks=True)
